@@ -5,6 +5,7 @@ import (
 	"context"
 	"encoding/json"
 	"fmt"
+	"runtime"
 	"sort"
 	"strings"
 	"sync"
@@ -1023,11 +1024,29 @@ func c08RunConc(c *vk.Case) {
 	close(start)
 	done := make(chan struct{})
 	go func() { wg.Wait(); close(done) }()
-	select {
-	case <-done:
-	case <-time.After(90 * time.Second):
-		c.Inconclusive("concurrent mix did not finish within 90 s")
-		return
+	finished := false
+	for waited, stuck := 0, 0; !finished; waited++ {
+		select {
+		case <-done:
+			finished = true
+			continue
+		case <-time.After(2 * time.Second):
+		}
+		// not a deadline verdict: the source has nothing left to answer and every reader that has not returned waits
+		// for a mutex of the client's cache — nobody is left who could release one (seen at three samples in a row)
+		if n, dump := c08CacheLockWaiters(); n >= 2 && node.Inflight() == 0 && int(atomic.LoadInt32(&inflight)) == n {
+			if stuck++; stuck >= 3 {
+				c.Violate("c08:conc:readers-deadlocked-on-cache-locks", map[string]any{"workload": "conc/" + mix, "maxreads": maxreads, "goroutines": G, "waiting_readers": n, "requests_in_flight_at_the_source": 0, "stacks": dump},
+					"%d concurrent Get calls never return: each waits for a lock of the segment cache while the source has no request of theirs in flight", n)
+				return
+			}
+		} else {
+			stuck = 0
+		}
+		if waited >= 45 {
+			c.Inconclusive("concurrent mix did not finish within 90 s")
+			return
+		}
 	}
 	evs := rc.since(0)
 	fetchOK, fetchFail := map[c08Key]int{}, map[c08Key]int{}
@@ -1664,4 +1683,27 @@ func c08RunHeadListenerFailure(c *vk.Case) {
 			"around a listener failure the cached head served %d successive reads without the source being asked (maxreads %d)", maxSeen, maxreads)
 	}
 	c.SetSig("head-listener-failure|mr=%d", maxreads)
+}
+
+// c08CacheLockWaiters counts the goroutines that wait for a mutex inside the client's segment cache and returns their
+// stacks (shortened).
+func c08CacheLockWaiters() (int, string) {
+	buf := make([]byte, 1<<20)
+	buf = buf[:runtime.Stack(buf, true)]
+	n := 0
+	var keep []string
+	for _, g := range strings.Split(string(buf), "\n\n") {
+		head, _, _ := strings.Cut(g, "\n")
+		if !(strings.Contains(head, "sync.Mutex.Lock") || strings.Contains(head, "semacquire")) {
+			continue
+		}
+		if !strings.Contains(g, "jrpc2.(*cache)") {
+			continue
+		}
+		n++
+		if len(keep) < 4 {
+			keep = append(keep, firstLines(g, 14))
+		}
+	}
+	return n, strings.Join(keep, "\n\n")
 }
